@@ -170,6 +170,96 @@ def subst_var(e, old, new):
     return e
 
 
+def rand_literal(rng, depth=0):
+    """a sugar literal whose cells are number literals (the compiler folds it to a constant)"""
+    k = rng.random()
+    n = lambda: N(rng.randrange(4))
+    if k < 0.2:
+        return X.set_([n() for _ in range(rng.randrange(1, 4))])
+    if k < 0.35:
+        return X.arr([n() if rng.random() < 0.85 else None for _ in range(rng.randrange(1, 4))] + [n()], rng.choice([0, 0, 2]))
+    if k < 0.5:
+        return X.dict_([(N(i), n()) for i in rng.sample(range(4), rng.randrange(1, 3))])
+    if k < 0.62:
+        return X.tup([(a, n()) for a in rng.sample(["a", "b", "c"], rng.randrange(1, 3))])
+    if k < 0.9 or depth:
+        names = rng.choice([["a", "b"], ["@", "@value"], ["@", "@item"], ["@", "x"], ["x", "@"], ["b", "a", "c"], ["@value", "@"]])
+        return X.rel(names, [[N(rng.randrange(3)) for _ in names] for _ in range(rng.randrange(1, 4))])
+    return X.set_([rand_literal(rng, 1) for _ in range(rng.randrange(1, 3))])
+
+
+def cell_paths(e, path=()):
+    """paths of the number cells of a literal"""
+    k = e[0]
+    if k == "num":
+        return [path]
+    out = []
+    if k == "set":
+        for j, x in enumerate(e[1]):
+            out += cell_paths(x, path + (1, j))
+    elif k == "arr":
+        for j, x in enumerate(e[1]):
+            if x is not None:
+                out += cell_paths(x, path + (1, j))
+    elif k == "tup":
+        for j, (_, x) in enumerate(e[1]):
+            out += cell_paths(x, path + (1, j, 1))
+    elif k == "dict":
+        for j, (a, b) in enumerate(e[1]):
+            out += cell_paths(a, path + (1, j, 0)) + cell_paths(b, path + (1, j, 1))
+    elif k == "rel":
+        for r, row in enumerate(e[2]):
+            for c, x in enumerate(row):
+                out += cell_paths(x, path + (2, r, c))
+    return out
+
+
+def node_at(e, path):
+    for i in path:
+        e = e[i]
+    return e
+
+
+def fold_pair(rng):
+    """a literal with constant cells vs the same literal whose cells are let-bound names (folded vs unfolded construction)"""
+    lit = rand_literal(rng)
+    cells = cell_paths(lit)
+    chosen = rng.sample(cells, min(len(cells), rng.randrange(1, 3)))
+    body, binds = lit, []
+    for i, pth in enumerate(chosen):
+        binds.append(("c%d_" % i, node_at(lit, pth)))
+        body = replace(body, pth, X.var("c%d_" % i))
+    form = rng.choice(["let", "let", "arrow", "call"])
+    r = body
+    for name, val in reversed(binds):
+        r = X.let(X.pvar(name), val, r) if form == "let" else X.arrow(val, X.fn(X.pvar(name), r)) if form == "arrow" else X.call(X.fn(X.pvar(name), r), val)
+    return "let-bound-cells-in-literal", lit, r
+
+
+ARITH = {"^": (3, "R"), "*": (2, "L"), "/": (2, "L"), "%": (2, "L"), "+": (1, "L"), "-": (1, "L")}
+
+
+def prec_pair(rng):
+    """an unparenthesised arithmetic chain vs the grouping the documented precedence and associativity imply"""
+    n = rng.randrange(3, 6)
+    names = ["p_", "q_"]
+    atoms = [rng.choice(["1", "2", "3", "2", "3", "4"] + names) for _ in range(n)]
+    ops = [rng.choice(["+", "-", "*", "/", "%", "^", "^", "*", "-"]) for _ in range(n - 1)]
+    while ops.count("^") > 2:
+        ops[ops.index("^")] = "-"
+    flat = " ".join(a + (" " + o if o else "") for a, o in zip(atoms, ops + [""]))
+
+    def climb(lo, hi):          # atoms[lo..hi], ops[lo..hi-1]: split at the loosest operator (rightmost for L, leftmost for R)
+        if lo == hi:
+            return atoms[lo]
+        lvl = min(ARITH[ops[i]][0] for i in range(lo, hi))
+        idx = [i for i in range(lo, hi) if ARITH[ops[i]][0] == lvl]
+        i = idx[0] if ARITH[ops[idx[0]]][1] == "R" else idx[-1]
+        return "(%s %s %s)" % (climb(lo, i), ops[i], climb(i + 1, hi))
+    wrap = lambda body: "(let p_ = 2; let q_ = 3; %s)" % body
+    return "implied-parentheses", wrap(flat), wrap(climb(0, n - 1))
+
+
 def base_programs(rng, tier):
     progs = []
     for mod in (c01, c05, c04, c09):
@@ -195,6 +285,12 @@ def main(tier, seed, replay=None):
                 except Exception:
                     continue
                 pairs.append((kind, X.src(e), s2, e, ast2))
+        for _ in range(120 if tier == "quick" else 1500):
+            kind, lit, r = fold_pair(rng)
+            pairs.append((kind, X.src(lit), X.src(r), lit, r))
+        for _ in range(80 if tier == "quick" else 1000):
+            kind, s1, s2 = prec_pair(rng)
+            pairs.append((kind, s1, s2, None, None))
     reqs = []
     for i, (kind, s1, s2, _, _) in enumerate(pairs):
         reqs.append({"id": 2 * i, "src": s1, "budget_ms": 6000})
@@ -224,7 +320,7 @@ def main(tier, seed, replay=None):
     evalcheck.judge(run, mcases, mouts, mcodes, mfails, "rewritten program vs the reference semantics", value_codes=(1, 2, 3), corr_codes=(4, 5, 6), skip_regions=True)
     step = max(1, len(pairs) // 6)
     run.cov.update({"evaluations": len(reqs) + len(mcases), "distinct_nontrivial": agree_val,
-                    "rule": "programs from the C01/C04/C05/C09 generators, each rewritten at a random position by one documented equivalence: let-introduction of a closed sub-expression (`let t = s; e[t/s]`), the same as `s -> \\\\t e` and `(\\\\t e)(s)`, sugar literal -> spelled-out set of tuples, implicit \\\\. binder -> explicit \\\\z, a failing operand hidden behind &&, || or cond, redundant parentheses, comments and whitespace; original and rewritten source both evaluated by syntax.EvaluateExpr: equal canonical values or both fail; non-trivial = pairs where both evaluate to equal values",
+                    "rule": "programs from the C01/C04/C05/C09 generators, each rewritten at a random position by one documented equivalence: let-introduction of a closed sub-expression (`let t = s; e[t/s]`), the same as `s -> \\\\t e` and `(\\\\t e)(s)`, sugar literal -> spelled-out set of tuples, implicit \\\\. binder -> explicit \\\\z, a failing operand hidden behind &&, || or cond, redundant parentheses, comments and whitespace; plus two dedicated streams: a sugar literal with constant cells (folded at compile time) against the same literal with one or two cells bound by let / -> / call (sets, arrays with holes and offsets, dicts, tuples, relation literals incl. the headings |@,@value|, |@,@item|, |@,x| with repeated keys, nested), and an unparenthesised arithmetic chain of 3-5 operands over + - * / % ^ (literals and let-bound names) against the grouping implied by the documented precedence and right-associative ^; original and rewritten source both evaluated by syntax.EvaluateExpr: equal canonical values or both fail; non-trivial = pairs where both evaluate to equal values",
                     "samples": [{"kind": p[0], "original": p[1][:160], "rewritten": p[2][:220]} for p in pairs[::step]][:6],
                     "rewrite_histogram": kinds, "pairs": len(pairs), "exhaustive": False})
     run.assumptions = ["the wbnf parser and syntax/compile.go are exercised, not modelled"]
